@@ -29,7 +29,7 @@ def decorate(it, kind, rng):
         return src[:m.end()] + "#[deprecated] " + rest
     if kind == "deprecated-variant":
         m = re.search(r"(pub enum @N@[^{]*\{\s*)", src)
-        if not m:
+        if not m or src[m.end():].lstrip().startswith("}"):
             return None
         return src[:m.end()] + "#[deprecated] " + src[m.end():]
     return None
